@@ -235,7 +235,25 @@ impl Adversary {
 
     /// A timeout vote for `view` whose high vote / high certificate are chosen by `lie`.
     fn lying_timeout(&mut self, view: u64, lie: u32) -> v2::ReplicaTimeout {
-        let qcs: Vec<&v2::CommitQC> = self.commit_qcs.values().filter(|q| q.view().number.0 < view).collect();
+        // Certificates known to the adversary; mostly those older than the view being timed out,
+        // sometimes every one it knows (a certificate nobody else has assembled yet, of the very
+        // view timing out or later - nothing forbids a timeout vote to carry it).
+        let horizon = if lie / 16 % 3 == 0 { u64::MAX } else { view };
+        if horizon == u64::MAX {
+            // Try to complete a certificate nobody has assembled yet from the newest votes seen
+            // plus the Byzantine validators' own votes.
+            let newest: Vec<v2::ReplicaCommit> = self.commits.keys().rev().take(3).cloned().collect();
+            for vote in newest {
+                if self.commit_qcs.contains_key(&vote.view.number.0) {
+                    continue;
+                }
+                if let Some(qc) = self.assemble_commit_qc(&vote) {
+                    self.learn_qc(&qc);
+                    break;
+                }
+            }
+        }
+        let qcs: Vec<&v2::CommitQC> = self.commit_qcs.values().filter(|q| q.view().number.0 < horizon).collect();
         let newest_qc = qcs.last().map(|q| (*q).clone());
         let votes: Vec<&v2::ReplicaCommit> =
             self.commits.keys().filter(|c| c.view.number.0 <= view).collect();
@@ -445,6 +463,12 @@ impl Adversary {
             // Assemble a timeout certificate which hides the newest votes where possible.
             11 | 12 => {
                 let v = self.max_view.saturating_sub(b as u64 % 3);
+                // The leader's new-view is processed even by replicas which are already in that
+                // view: let a Byzantine leader of view v+1 speak when there is one.
+                let who = match self.leader_idx(v.saturating_add(1)) {
+                    Some(l) if self.c.byz[l] && c % 3 != 0 => l,
+                    _ => who,
+                };
                 if let Some(qc) = self.assemble_timeout_qc(v, c, c % 2 == 0) {
                     hub.fault("byz_assembled_timeout_qc");
                     let hv = qc.high_vote(&self.c.schedule);
